@@ -65,6 +65,7 @@ type Engine struct {
 	lastAlloc                                                                                *Term
 	crcMemo                                                                                  map[string]*Term
 	jsonMemo                                                                                 map[string]*IfaceV
+	jsonSerial                                                                               int
 	reMemo                                                                                   map[string]*Term
 
 	// witness sampling (translation validation of complete paths against the native build)
